@@ -61,6 +61,17 @@ def run(ctx):
             if sx.is_call(n) and n['f']['p'] == 'Range::new' and len(n['args']) == 2:
                 a, b2 = sx.render(n['args'][0]).replace(' ', ''), sx.render(n['args'][1]).replace(' ', '')
                 ok = b2 == a or b2.startswith('(' + a + '+') or b2.endswith('+' + a + ')')
+                if not ok and sx.is_path(n['args'][0]) and sx.is_path(n['args'][1]):
+                    # begin / end are locals bound to the same growing length, begin first:  let b = X.len(); ..push..; let e = X.len();
+                    lets_ = {}
+                    for st_ in sx.walk(fn['body']):
+                        if st_.get('k') == 'let' and 'pat' in st_ and 'init' in st_ and st_['pat'].get('k') == 'ident':
+                            lets_.setdefault(st_['pat']['n'], []).append(st_)
+                    la, lb = lets_.get(a, []), lets_.get(b2, [])
+                    if len(la) == 1 and len(lb) == 1:
+                        ia, ib = sx.render(la[0]['init']).replace(' ', ''), sx.render(lb[0]['init']).replace(' ', '')
+                        if ia == ib and ia.endswith('.len()') and la[0].get('l', 0) < lb[0].get('l', 0):
+                            ok = True
                 range_sites.append((fn['name'], n.get('l'), a, b2, ok))
     # Locate::str(arg): arg is the function's text parameter
     str_sites = []
@@ -86,6 +97,10 @@ def run(ctx):
                     continue
                 cal = c.callee
                 meth = cal.split('::')[-1]
+                if cal.startswith('core::panicking::') and any(mn.startswith('debug_assert') for mn in getattr(c, 'macros', [])):
+                    # debug-only self-check (compiled out of release builds), excluded by kind like the overflow checks
+                    classes.setdefault('debug_assert(excluded by kind)', [0, 0])[0] += 1
+                    continue
                 # ---------------- parser crate
                 if crate == PARSER and meth == 'unwrap' and cal.startswith('core::option::'):
                     owner_fn = m.owner(b.name).split('::')[-1]
@@ -176,7 +191,8 @@ def run(ctx):
                 # anything else
                 count('unclassified:' + cal, False, b, c, 'panic-capable call %s is in no discharged class' % cal)
             for a in b.asserts:
-                kind, line, from_exp = a
+                kind, line, from_exp = a[:3]
+                a_macros = (a[3].split(',') if len(a) > 3 and a[3] else [])
                 if kind == 'overflow-sub':
                     # unsigned subtraction can underflow (panic in debug builds): each site needs a reason
                     why = None
@@ -198,9 +214,14 @@ def run(ctx):
                     if crate == 'sv_parser_pp' and b.name.endswith('::origin'):
                         of = pp.methods.get(('PreprocessedText', 'origin'))
                         if of is not None:
-                            t_ = sx.render(of['body']).replace(' ', '')
-                            if 'self.origins.get(&Range::new(pos,(pos+1)))' in t_ and '((pos-origin.range.begin)+origin_range.begin)' in t_:
-                                why = 'the segment returned by the 1-byte probe contains pos, so pos >= segment begin'
+                            prm = [sx.pat_idents(p_['pat'])[0] for p_ in of['sig']['params'] if p_.get('k') == 'typed']
+                            pos_ = prm[0] if prm else 'pos'
+                            probes = [n for n in sx.walk(of['body']) if n.get('k') == 'mcall' and n['m'] == 'get' and
+                                      sx.render(n['recv']).replace(' ', '') == 'self.origins' and
+                                      sx.render(sx.strip_ref(n['args'][0])).replace(' ', '') in ('Range::new(%s,(%s+1))' % (pos_, pos_), 'Range::new(%s,(1+%s))' % (pos_, pos_))]
+                            subs = [n for n in sx.walk(of['body']) if n.get('k') == 'binary' and n['op'] == '-']
+                            if len(probes) == 1 and subs and all(sx.is_path(n['l_'], pos_) and sx.render(n['r']).replace(' ', '').endswith('.begin') for n in subs):
+                                why = 'the segment returned by the 1-byte probe [pos, pos+1) contains pos, so pos >= segment begin'
                     classes.setdefault('assert-overflow-sub', [0, 0])[0] += 1
                     r.inst('assert-sub:%s:%d' % (b.name, classes['assert-overflow-sub'][0]), {'site': b.pretty, 'line': line, 'discharged_because': why})
                     if why is None:
